@@ -10,7 +10,8 @@ RULE = ('windows built by construction: MACH_vmfault (END result zero / non-zero
         'DBG_DYLD_TIMING_LAUNCH_EXECUTABLE with 0..8 nested map_a / shared_cache_a / unmap_a / map_b records, pooled '
         '(equal, adjacent) load addresses; PERF_Event with arbitrary 14-bit flag words and every subset/order of '
         '{THD_Data, STK_UHdr, STK_UData x k} (stack words include null frames), also the NONE-qualified (window-less) variant. Unrelated same-thread '
-        'records and relevant-kind records of OTHER threads are mixed in. Oracle: fields of the emitted object '
+        'records and relevant-kind records of OTHER threads are mixed in; a third of the windows follow an unterminated START of the same '
+        'operation on the same thread with 1..3 relevant records behind it. Oracle: fields of the emitted object '
         'against a plain reading of the statement. Non-trivial: >= 2 candidate records, a flag/record mismatch, or an '
         'undecoded nested kind; distinct by window digest.')
 ASSUMPTIONS = ['when the first nested real-fault record is of the undecoded kind, pid/protection may be omitted or '
@@ -55,9 +56,21 @@ def arg(e, i):
     return int.from_bytes(e[3][8 * i:8 * i + 8], 'little')
 
 
+def stale(case, start_name, mk):
+    """an earlier START of the same operation on the same thread whose END never came (lost, or the dump began later),
+    followed by records of the relevant kinds: they belong to no window and must not show up in the next one"""
+    pre = []
+    if case.get('stale'):
+        pre.append(SC.ev(TID, start_name, 1, case['seed'] + 12345, 0) if mk is None else mk(None))
+        for i, it in enumerate(case['stale']):
+            pre.append(SC.ev(TID, it[0], 0, it[1], 50 + i) if mk is None else mk((i, it)))
+    return pre
+
+
 def prop_vmfault(ctx, case):
+    pre = stale(case, 'MACH_vmfault', None)
     evs = build(case, 'MACH_vmfault')
-    out = guard(emit, evs, 'MACH_vmfault')
+    out = guard(emit, pre + evs, 'MACH_vmfault')
     if len(out) != 1:
         raise Violation('trace-count', f'{len(out)} page-fault traces')
     t = out[0]
@@ -66,7 +79,7 @@ def prop_vmfault(ctx, case):
     if t.result != result:
         raise Violation('vmfault-result', f'result {t.result} expected END word 2 = {result}')
     mine = [e for e in evs[1:-1] if e[0] == TID and e[1] in SC.REAL_FAULT_KINDS]
-    cls = ['vmfault', f'nested:{min(len(mine), 3)}', 'ok' if result == 0 else 'failed']
+    cls = ['vmfault', f'nested:{min(len(mine), 3)}', 'ok' if result == 0 else 'failed', *(['after-unterminated-start'] if pre else [])]
     if result == 0:
         if getattr(t.fault_type, 'value', None) != ftype:
             raise Violation('vmfault-type', f'type {t.fault_type} expected {ftype}')
@@ -101,7 +114,16 @@ def prop_launch(ctx, case):
         w[2] = ADDR_POOL[ai % len(ADDR_POOL)] if ai < 100 else w[2]
         evs.append(EV.E(OTHER if other else TID, code, 0, args=w))
     evs.append(SC.ev(TID, start, 2, case['seed'], 1))
-    out = guard(emit, evs, start)
+
+    def mk(x):
+        if x is None:
+            return SC.ev(TID, start, 1, case['seed'] + 12345, 0)
+        i, (code, sd, other, ai) = x
+        w = words(sd, 50 + i)
+        w[2] = ADDR_POOL[ai % len(ADDR_POOL)] if ai < 100 else w[2]
+        return EV.E(TID, code, 0, args=w)
+    pre = stale(case, start, mk)
+    out = guard(emit, pre + evs, start)
     if len(out) != 1:
         raise Violation('trace-count', f'{len(out)} launch traces')
     t = out[0]
@@ -114,7 +136,7 @@ def prop_launch(ctx, case):
         raise Violation('launch-order', f'load addresses not sorted: {[hex(g[1]) for g in got]}')
     guard(str, t)
     ctx.note([[e[1], e[0] == OTHER, arg(e, 2)] for e in evs], nontrivial=len(exp) >= 2,
-             classes=['launch', f'images:{min(len(exp), 3)}', 'dup-addr' if len({g[1] for g in exp}) < len(exp) else 'distinct-addr'])
+             classes=['launch', f'images:{min(len(exp), 3)}', 'dup-addr' if len({g[1] for g in exp}) < len(exp) else 'distinct-addr', *(['after-unterminated-start'] if pre else [])])
 
 
 def prop_sample(ctx, case):
@@ -136,7 +158,16 @@ def prop_sample(ctx, case):
                         w[z] = 0
             evs.append(EV.E(OTHER if other else TID, code, 0, args=w))
         evs.append(EV.E(TID, 'PERF_Event', 2, args=[flags ^ 0xffff, 9, 0, 0]))
-    out = [t for t in guard(emit, evs, 'PERF_Event')]
+    def mks(x):
+        if x is None:
+            return EV.E(TID, 'PERF_Event', 1, args=[0x3fff, 5, 0, 0])
+        i, (code, sd, other, nf) = x
+        w = words(sd, 50 + i)
+        if code == 'PERF_STK_UHdr':
+            w[1] = nf % 14
+        return EV.E(TID, code, 0, args=w)
+    pre = [] if case['windowless'] else stale(case, 'PERF_Event', mks)
+    out = [t for t in guard(emit, pre + evs, 'PERF_Event')]
     if len(out) != 1:
         raise Violation('trace-count', f'{len(out)} sampler traces')
     t = out[0]
@@ -167,7 +198,7 @@ def prop_sample(ctx, case):
     ctx.note([flags & 9, case['windowless'], [[e[1], e[0] == OTHER] for e in evs]],
              nontrivial=mismatch or len(data) >= 2 or len(hdr) >= 2,
              classes=['sample', 'windowless' if case['windowless'] else 'window', 'mismatch' if mismatch else 'match',
-                      'stack' if want_stack else 'no-stack'])
+                      'stack' if want_stack else 'no-stack', *(['after-unterminated-start'] if pre else [])])
 
 
 PROPS = {'vmfault': prop_vmfault, 'launch': prop_launch, 'sample': prop_sample}
@@ -185,11 +216,14 @@ def items(kinds, max_n, extra=st.integers(0, 120)):
 
 def run(ctx):
     long_ = st.sampled_from([0] * 30 + [600, 1100])
-    vm = st.fixed_dictionaries({'seed': S.u64, 'items': items(SC.REAL_FAULT_KINDS, 5), 'long': long_})
-    la = st.fixed_dictionaries({'seed': S.u64, 'items': items(SC.LAUNCH_NESTED, 8), 'long': long_})
+    def stale_items(kinds, extra=st.integers(0, 120)):
+        return st.one_of(st.just([]), st.just([]), st.lists(st.tuples(st.sampled_from(kinds), S.u64, st.just(False), extra).map(list), min_size=1, max_size=3))
+    vm = st.fixed_dictionaries({'seed': S.u64, 'items': items(SC.REAL_FAULT_KINDS, 5), 'long': long_, 'stale': stale_items(SC.REAL_FAULT_KINDS)})
+    la = st.fixed_dictionaries({'seed': S.u64, 'items': items(SC.LAUNCH_NESTED, 8), 'long': long_, 'stale': stale_items(SC.LAUNCH_NESTED)})
     sa = st.fixed_dictionaries({'flags': st.one_of(st.integers(0, 2 ** 14 - 1), st.sampled_from([0, 1, 8, 9, 0x3fff, 0x3ff6]),
                                                    st.tuples(st.integers(0, 2 ** 14 - 1), st.sampled_from([9, 9, 8, 1])).map(lambda t: t[0] | t[1])),
-                                'windowless': st.sampled_from([False, False, False, True]), 'q': st.sampled_from([0, 3]), 'long': long_, 'fseed': S.u64,
+                                'windowless': st.sampled_from([False, False, False, True]), 'q': st.sampled_from([0, 3]), 'long': long_, 'fseed': S.u64, 'seed': S.u64,
+                                'stale': stale_items(['PERF_THD_Data', 'PERF_STK_UHdr', 'PERF_STK_UData'], st.integers(0, 13)),
                                 'items': items(['PERF_THD_Data', 'PERF_STK_UHdr', 'PERF_STK_UData', 'PERF_STK_UData'], 7,
                                                st.integers(0, 13))})
     ctx.run_given('vmfault', vm, prop_vmfault, ctx.n(600, 9000))
